@@ -23,6 +23,7 @@ type Monitor interface {
 	PauseHandleEvents()
 	Snapshot() []kemtypes.ObjectAndFilterResult
 	EnableKubeEventCb()
+	DropSavedEvents()
 	GetConfig() *MonitorConfig
 	SnapshotOperations() (total *CachedObjectsInfo, last *CachedObjectsInfo)
 }
@@ -312,6 +313,19 @@ func (m *monitor) EnableKubeEventCb() {
 	m.VaryingInformers.RangeValue(func(value []*resourceInformer) {
 		for _, informer := range value {
 			informer.enableKubeEventCb()
+		}
+	})
+}
+
+// DropSavedEvents drops events accumulated during "Synchronization" phase up to now.
+// It should be called before Snapshot to get objects for the Synchronization.
+func (m *monitor) DropSavedEvents() {
+	for _, informer := range m.ResourceInformers {
+		informer.dropSavedEvents()
+	}
+	m.VaryingInformers.RangeValue(func(value []*resourceInformer) {
+		for _, informer := range value {
+			informer.dropSavedEvents()
 		}
 	})
 }
